@@ -13,6 +13,12 @@ ShAmt(n, L) == ZToInt(ZMod(n, ZI(LW(L))))          \* shift amount reduced modul
 \* smallest power of two >= x (x > 0)
 NextPow2(x) == LET k == ZBitLen(x) IN IF ZEq(x, ZPow2(k - 1)) THEN x ELSE ZPow2(k)
 
+RECURSIVE PopCount(_, _)
+PopCount(p, k) == IF k = 0 THEN 0 ELSE ZBitAbs(p, k - 1) + PopCount(p, k - 1)          \* ones among the low k bits
+RECURSIVE TrailingZeros(_, _, _)
+TrailingZeros(p, i, w) == IF i >= w THEN w ELSE IF ZBitAbs(p, i) = 1 THEN i ELSE TrailingZeros(p, i + 1, w)
+RotL(p, m, w) == IF m = 0 THEN p ELSE ZUMod2(ZAdd(ZShl(p, m), ZFloorShr(p, w - m)), w)
+
 WBinOps  == {"add", "sub", "mul", "div", "rem", "div_euclid", "rem_euclid"}
 WBitOps  == {"and", "or", "xor"}
 WIntOps  == {"mul_int", "div_int", "rem_int", "div_euclid_int", "rem_euclid_int"}
@@ -32,6 +38,8 @@ WExact(e, reg, L) ==
        [] e.op = "not" -> Exact(ZSub(ZNeg(x), ZI(1)))
        [] e.op = "shl" -> Exact(ZShl(x, ShAmt(ZJ(e.n), L)))
        [] e.op = "shr" -> Exact(ZFloorShr(x, ShAmt(ZJ(e.n), L)))
+       [] e.op = "rotl" -> Exact(OfPat(RotL(Pat(x, L), ShAmt(ZJ(e.n), L), LW(L)), L))
+       [] e.op = "rotr" -> Exact(OfPat(RotL(Pat(x, L), (LW(L) - ShAmt(ZJ(e.n), L)) % LW(L), LW(L)), L))
        [] e.op = "npot" -> Exact(IF ZIsZero(x) THEN ZI(1)
                                  ELSE IF Fits(NextPow2(x), L) THEN NextPow2(x) ELSE Z0)
        [] e.op = "from_int" -> Exact(ZShl(ZJ(e.n), f))
@@ -48,11 +56,39 @@ WExact(e, reg, L) ==
                          ELSE Wrap(ZFloorShr(ZMul(Pr(i - 1), reg[e.as[i]]), f), L)
             IN Exact(IF Len(e.as) = 0 THEN ZShl(ZI(1), f) ELSE Pr(Len(e.as)))
 
+\* observers of a register (no state change): bit counting, predicates, layout constants, to_bits, to_num::<Dst> (= the
+\* wrapping conversion of the value into the layout e.D; primitive integers are layouts without fractional bits),
+\* Display (the text of the wrapper is the text of the wrapped value, which C09 judges)
+WObsOk(e, reg, L) ==
+  LET x == reg[e.a]  p == Pat(x, L)  w == LW(L)
+      IntIs(n) == e.r = <<0, n>>
+  IN CASE e.op = "count_ones"     -> IntIs(PopCount(p, w))
+       [] e.op = "count_zeros"    -> IntIs(w - PopCount(p, w))
+       [] e.op = "leading_zeros"  -> IntIs(w - ZBitLen(p))
+       [] e.op = "trailing_zeros" -> IntIs(TrailingZeros(p, 0, w))
+       [] e.op = "is_pow2"        -> IntIs(IF PopCount(p, w) = 1 THEN 1 ELSE 0)
+       [] e.op = "is_neg"         -> IntIs(IF ZSign(x) < 0 THEN 1 ELSE 0)
+       [] e.op = "int_nbits"      -> IntIs(LI(L))
+       [] e.op = "frac_nbits"     -> IntIs(LF(L))
+       [] e.op = "to_bits"        -> ValIs(e.r, x)
+       [] e.op = "to_num"         -> ValIs(e.r, Wrap(ConvR(x, LF(L), LF(e.D)), e.D))
+       [] e.op = "display"        -> e.s = e.t
+       [] OTHER -> FALSE
+\* a load through a constructor: "c" names it and "iv" is the value handed to it
+WLoadOk(e, L) ==
+  IF "c" \notin DOMAIN e THEN TRUE
+  ELSE CASE e.c = "min" -> ZEq(ZJ(e.v), MinV(L))
+         [] e.c = "max" -> ZEq(ZJ(e.v), MaxV(L))
+         [] e.c \in {"from_bits", "from", "tuple"} -> ZEq(ZJ(e.v), ZJ(e.iv))
+         [] OTHER -> FALSE
+
 WUnpinned(e, L) == e.op \in {"int", "frac"} /\ LI(L) = 0
 
 \* verdict of one step given the specification's own register state
 WVerdict(e, reg, L) ==
-  IF e.k # "w" THEN "ok"
+  IF e.k = "wobs" THEN (IF WObsOk(e, reg, L) = TRUE THEN "ok" ELSE "")
+  ELSE IF e.k = "wload" THEN (IF WLoadOk(e, L) = TRUE THEN "ok" ELSE "")
+  ELSE IF e.k # "w" THEN "ok"
   ELSE IF WUnpinned(e, L) THEN (IF IsPanic(e.r) THEN "" ELSE "ok")
   ELSE LET x == WExact(e, reg, L) IN
        IF x.zd THEN (IF e.op = "from_float" /\ ~IsPanic(e.r) THEN "" ELSE "ok")   \* a zero divisor may panic; a non-finite float must
